@@ -718,6 +718,8 @@ def check(ctx, pid):
         userun = (i % 4 == 0)
         for t in range(timings):
             cases.append(case_line(s, base + t, userun))
+    if os.environ.get("RT_DUMP_CASES"):
+        open(os.environ["RT_DUMP_CASES"], "w").write("\n".join(cases) + "\n")
     t0 = time.time()
     logs = run_impl(ctx, cases)
     t_impl = time.time() - t0
